@@ -72,6 +72,10 @@ func convert(v any, pt string) (any, convStatus) {
 			return strconv.FormatInt(x, 10), convOK
 		case uint:
 			return strconv.FormatUint(uint64(x), 10), convOK
+		case uint64:
+			return strconv.FormatUint(x, 10), convOK // also beyond MaxInt64: 18446744073709551615
+		case uint32:
+			return strconv.FormatUint(uint64(x), 10), convOK
 		case float64:
 			// "decimal text": asserted only where it is unambiguous: a fractional value whose
 			// plain and shortest notations coincide (10.0 -> "10" or "10.0"? 1e21?)
@@ -95,6 +99,18 @@ func convert(v any, pt string) (any, convStatus) {
 			return numTo(float64(x), x, pt), convOK
 		case uint:
 			return numTo(float64(x), int64(x), pt), convOK
+		case uint64, uint32:
+			u := reflect.ValueOf(x).Uint()
+			if pt == "float64" {
+				return float64(u), convOK
+			}
+			if u > math.MaxInt64 {
+				if pt == "uint" {
+					return uint(u), convOK
+				}
+				return nil, convUnspecified // does not fit the signed parameter
+			}
+			return numTo(float64(u), int64(u), pt), convOK
 		case float64:
 			if pt == "float64" {
 				return x, convOK
@@ -132,7 +148,7 @@ func convert(v any, pt string) (any, convStatus) {
 		switch x := v.(type) {
 		case bool:
 			return x, convOK
-		case string, int, int64, uint, float64, nil:
+		case string, int, int64, uint, uint64, uint32, float64, nil:
 			return nil, convUnspecified
 		}
 		return nil, convImpossible // containers -> bool
@@ -262,7 +278,11 @@ func init() {
 		}})
 	reg(&fnSpec{name: "int", params: []string{"any"}, builtin: true, shared: true,
 		accepts: func(v any) bool { // unsigned input: not documented (today: 0), not asserted
-			_, isU := v.(uint)
+			isU := false
+			switch v.(type) {
+			case uint, uint64, uint32:
+				isU = true
+			}
 			_, st := convert(v, "int")
 			return st == convOK && !isU
 		},
